@@ -129,7 +129,13 @@ class BasicContiguousVector<cntgs::Options<Option...>, Parameter...>
     {
     }
 
-    BasicContiguousVector(BasicContiguousVector&&) = default;
+    constexpr BasicContiguousVector(BasicContiguousVector&& other) noexcept
+        : max_element_count_(other.max_element_count_),
+          memory_(std::move(other.memory_)),
+          locator_(std::move(other.locator_))
+    {
+        other.max_element_count_ = {};
+    }
 
     BasicContiguousVector& operator=(const BasicContiguousVector& other)
     {
@@ -472,6 +478,7 @@ class BasicContiguousVector<cntgs::Options<Option...>, Parameter...>
         destruct();
         deallocate_locator();
         max_element_count_ = other.max_element_count_;
+        other.max_element_count_ = {};
         memory_ = std::move(other.memory_);
         locator_ = std::move(other.locator_);
     }
